@@ -35,6 +35,30 @@ theorem marshal_is_concatenation (S : Schema) (md : MD) (fs : List F) (unk : Byt
     · exact ⟨ops, ho, hbs⟩
     · exact absurd he hm
 
+/-- **`MarshalTo` into a recycled buffer**: whatever the caller's buffer (of exactly `Size()` bytes) held
+    before, afterwards it holds the fields' records followed by the unknown fields and nothing else — every
+    byte of the encoding is stored by some encoder call, no byte of the old contents shows through.  (In the
+    model every writer stores all of its bytes; that the writers of encoder.go do is what the C01 encoder
+    stream and the dirty-buffer oracle of this property check on the code.) -/
+theorem marshalTo_overwrites_any_buffer (S : Schema) (md : MD) (fs : List F) (unk old : Bytes) (ops : List EncOp)
+    (hok : OKFields S md fs) (ho : opsFields S md fs = .ok ops)
+    (hlen : old.length = sizeFields S md fs + unk.length) :
+    ∃ e, ({ buf := old, off := 0 } : Enc).run (ops ++ [.raw unk]) = .ok e ∧ e.buf = Gen.wiresOf ops ++ unk := by
+  obtain ⟨_, x⟩ := fields_exact S md fs ops hok ho
+  have hsz := C04.size_exact S md fs unk ops hok ho
+  have hx : ∀ op ∈ ops ++ [EncOp.raw unk], OpExact op := by
+    intro op hop
+    rcases List.mem_append.mp hop with h | h
+    · exact x op h
+    · simp at h; subst h; exact True.intro
+  obtain ⟨e, hr, ha⟩ := run_exact (ops ++ [.raw unk]) ({ buf := old, off := 0 } : Enc) hx
+    (by unfold Enc.Room Enc.cap; simp only []; rw [hlen, hsz]; omega)
+  have hcap : e.cap = sizeFields S md fs + unk.length := by rw [ha.cap]; simp [Enc.cap, hlen]
+  have hoff : e.off = e.cap := by rw [ha.off, hcap, hsz]; simp
+  refine ⟨e, hr, ?_⟩
+  rw [← Enc.written_full hoff, ha.written, Gen.wiresOf_append]
+  simp [Gen.wiresOf, EncOp.wire, Enc.written]
+
 /-- an unset field (nil pointer / nil oneof member) writes nothing -/
 theorem unset_emits_nothing (S : Schema) (fd : FD) (h : fd.card ≠ .required) :
     opsField S fd .unset = .ok [] ∧ sizeField S fd .unset = 0 := by
